@@ -97,6 +97,16 @@ func checkC06(p *Prog, r *Report) {
 	r.rule("C06.null-gate: for a non-nullable kind no successful path exists on which the raw value was found to be the literal null (encoding/json treats null as a no-op, so such a path stores the zero value); for a nullable kind that path returns the kind's nil pointer")
 	r.rule("C06.decode-call: string, time and bytes values are produced by encoding/json.Unmarshal(data, &v) into the very variable whose value (or address) is returned")
 	r.rule("C06.fresh-linkage: the Identifier / Identifiers variable a relationship's data is decoded into is declared inside the loop over the payload's relationships (zeroed per relationship), so a null or id-less linkage cannot inherit the previous relationship's IDs")
+	r.rule("C06.err-stops (R4.err-stops): in UnmarshalResource, UnmarshalPartialResource and UnmarshalDocument the error case of every decoder call (json.Unmarshal of the skeleton and of each linkage, UnmarshalToType, the nested unmarshalers) cannot reach a successful return: walking from the call and taking, at every branch on that error, the non-nil edge only, no return with a nil error is reachable - a linkage the decoder refused (a list where an object is expected) is never accepted with an empty relationship")
+	nES := 0
+	for _, name := range []string{"UnmarshalResource", "UnmarshalPartialResource", "UnmarshalDocument"} {
+		if ef := p.Fn(name); ef != nil {
+			nES += checkErrStops(p, r, ef, "C06.err-stops")
+		} else {
+			r.fail("anchor " + name + " not found")
+		}
+	}
+	r.floor("decoder calls on the resource decoding paths", nES, 6)
 	r.rule("C06.plumbing: UnmarshalResource sets id from the skeleton's ID as decoded, each attribute from the first result of UnmarshalToType on that attribute's raw value, each relationship from the decoded linkage's ID(s) in payload order, and calls Set nowhere else (absent fields keep the zero values of Type.New)")
 	r.assume("strconv.ParseInt/ParseUint/Atoi accept exactly the base-10 literals that fit the given bit size and return them unchanged; encoding/json, time and base64 decode faithfully (standard-library contracts)")
 	r.notCovered("negative zero, fractions and exponents (rejected by strconv, which the property permits); RFC 3339 and base64 fidelity; that re-marshaling reproduces the payload (C01)")
